@@ -70,7 +70,7 @@ class ArrayGlobalVarDesc(MemoryDesc):
             fmt, addr = self.fmt_addr(instance)
             if fmt == "x":
                 fmt = "q"
-                value = int(value * Expression.FIXED_BASE)
+                value = round(value * Expression.FIXED_BASE)
             if not isinstance(value, tuple):
                 value = value,
             b = pack(fmt, *value)
